@@ -1,7 +1,7 @@
 """C11 -- retention only deletes data older than the cutoff (DESIGN section 5, C11).
 
 (M) TLC exhausts specs/retention/Retention.tla in small scope (<= 2 files, 5-point axis with the
-    cutoff ON an axis point, 3 (db, measurement) combinations with shared prefixes, hour and day
+    cutoff ON an axis point, rows confined to the file's hour/day partition, 3 (db, measurement) combinations with shared prefixes, hour and day
     locations, policy with/without measurement filter; behaviour grammar [compact] dry run
     [compact] [advance] dry run) and checks the property invariants on the model of the code as
     written (eligible iff max(time) < cutoff); a second run with the wrong comparison (<=) must
